@@ -218,4 +218,3 @@ func (e *env) tracked() tracked {
 	t.ChainID = string(s)
 	return t
 }
-
